@@ -9,6 +9,7 @@ CONSTANTS
   Secrets <- S12
   Questions <- Q0
   AllowEnd = TRUE
+  MaxRequery = 0
 INVARIANTS TypeOK InOrderNoDup SlotBound NoSplice SMPSound
 PROPERTIES TamperRejected
 CHECK_DEADLOCK FALSE
